@@ -174,6 +174,23 @@ def run(ctx, out):
                     expect.add(os.fsencode(nm) + b"/" + b"/".join(r))
             expect.add(os.fsencode(nm))
         order = list(names)
+        # sources that are NOT directories (a plain file, a link to a file) travel in the same invocation: the option is
+        # per directory source, they neither have a .gitignore nor change anyone else's
+        extra_kind = rng.choice(["none", "file", "file", "link", "two-files"])
+        if extra_kind in ("file", "two-files"):
+            open(os.path.join(d, "NOTES.txt"), "w").write("notes")
+            order.append("NOTES.txt")
+            expect.add(b"NOTES.txt")
+        if extra_kind == "two-files":
+            open(os.path.join(d, "b.log"), "w").write("log")      # its NAME may match a pattern of some source: irrelevant
+            order.append("b.log")
+            expect.add(b"b.log")
+        if extra_kind == "link":
+            open(os.path.join(d, "real.dat"), "w").write("real")
+            os.symlink("real.dat", os.path.join(d, "lnk.dat"))
+            order.append("lnk.dat")
+            expect.add(b"lnk.dat")
+        out.count("multi_extra_" + extra_kind)
         rng.shuffle(order)
         rel = rng.random() < 0.5
         driver = rng.choice(["parfile", "parblock"])
